@@ -170,14 +170,21 @@ fn t_muldiv(rng: &mut Rng) -> Case {
                 b.feat("mod");
             }
             5 => {
-                let k = 2 + rng.below(13);
+                // the literal must fit the operand width (a wider divisor is the known width defect)
+                let maxk = (1u64 << (if signed { w1 - 1 } else { w1 }).min(5)) - 1;
+                let k = if maxk <= 2 { 1 } else { 2 + rng.below(maxk - 1) };
                 let o = b.output(w1, signed);
                 let op = if rng.bool() { "/" } else { "%" };
                 b.b(&format!("    assign {o} = {a} {op} {k};"));
                 b.feat("divmod_const");
             }
+            _ if b.has_ff || signed => {
+                let wo = w1.max(w2) + 1;
+                let o = b.output(wo, signed);
+                b.b(&format!("    assign {o} = {a} + {c};"));
+            }
             _ => {
-                // multiply-accumulate through a register
+                // multiply-accumulate through a register (unsigned operands: acc is unsigned)
                 let wo = w1 + w2;
                 let o = b.output(wo, false);
                 b.d(&format!("    var acc: logic<{wo}>;"));
@@ -268,7 +275,8 @@ fn t_widemux(rng: &mut Rng) -> Case {
         b.b(&format!("    assign {o3} = {e};"));
         b.feat("ternary_chain");
     }
-    if w > 1 && rng.bool() {
+    if w > 1 && (1usize << ws) <= n * w && rng.bool() {
+        // the index cannot leave the vector (an out-of-range select is X in SV: nothing to compare)
         let o4 = b.output(1, false);
         b.b(&format!("    assign {o4} = {d}[{sel}];"));
         b.feat("dynamic_bit_select");
@@ -675,7 +683,7 @@ fn t_resets(rng: &mut Rng) -> Case {
             1 => "1".to_string(),
             2 if w <= 64 => {
                 b.feat("reset_value_all_ones");
-                "'1".to_string()
+                format!("{w}'h{:x}", if w == 64 { u64::MAX } else { (1u64 << w) - 1 })
             }
             _ => lit(rng, w.min(64)),
         };
@@ -742,8 +750,9 @@ fn t_fsm(rng: &mut Rng) -> Case {
     if rng.bool() {
         let o3 = b.output(w, false);
         b.pre.push_str(&format!(
-            "package FnPkg {{\n    function sat_add (\n        a: input logic<{w}>,\n        b: input logic<{w}>,\n    ) -> logic<{w}> {{\n        var s: logic<{}>;\n        s = a + b;\n        if s[{w}] {{\n            return '1;\n        }} else {{\n            return s[{}:0];\n        }}\n    }}\n}}\n\n",
+            "package FnPkg {{\n    function sat_add (\n        a: input logic<{w}>,\n        b: input logic<{w}>,\n    ) -> logic<{w}> {{\n        var s: logic<{}>;\n        s = a + b;\n        if s[{w}] {{\n            return {w}'h{:x};\n        }} else {{\n            return s[{}:0];\n        }}\n    }}\n}}\n\n",
             w + 1,
+            (1u64 << w) - 1,
             w - 1
         ));
         b.b(&format!("    assign {o3} = FnPkg::sat_add(n, {lim});"));
@@ -791,7 +800,7 @@ pub fn gen_case(seed: u64, i: u64) -> Case {
         let d = generate(&mut rng, &opts);
         return Case { kind: format!("dg_{mode}"), design: d, arrays: vec![], ports: (1, 1) };
     }
-    // 20 slots: 6 cleangen, 11 templates (RAM twice), 1 vgen DesignGen, 1 known-defect probe, 1 scan/counter
+    // 20 slots: 5 cleangen, 12 templates (RAM twice), 1 vgen DesignGen, 2 known-defect probes
     match i % 20 {
         0 => crate::cleangen::clean_case(&mut rng, 0),
         3 => crate::cleangen::clean_case(&mut rng, 1),
@@ -799,7 +808,8 @@ pub fn gen_case(seed: u64, i: u64) -> Case {
         15 => crate::cleangen::clean_case(&mut rng, 3),
         18 => crate::cleangen::clean_case(&mut rng, i / 20),
         5 => designgen(&mut rng, i / 20),
-        13 => crate::known::probe(&mut rng, i / 20),
+        13 => crate::known::probe(&mut rng, 2 * (i / 20)),
+        19 => crate::known::probe(&mut rng, 2 * (i / 20) + 1),
         1 => t_muldiv(&mut rng),
         2 => t_shift(&mut rng),
         4 => t_widemux(&mut rng),
@@ -812,13 +822,7 @@ pub fn gen_case(seed: u64, i: u64) -> Case {
         14 => t_resets(&mut rng),
         16 => t_fsm(&mut rng),
         17 => t_ram(&mut rng),
-        _ => {
-            if rng.bool() {
-                t_scan(&mut rng)
-            } else {
-                t_counter(&mut rng)
-            }
-        }
+        _ => unreachable!(),
     }
 }
 
